@@ -1911,6 +1911,9 @@ func (v *Verifier) finishPath(st *State, rs []*Term) {
 	}
 	env.mode = 2
 	for _, en := range con.Ensures {
+		if con.TrustedPosts {
+			break
+		}
 		g, err := env.evalBool(en.Expr)
 		if err != nil {
 			v.errorf("ensures %s: %v", en.Label, err)
